@@ -127,7 +127,8 @@ func genFlows(r *sim.Rand, small bool) []flowSpec {
 			}
 		}
 		if r.Chance(1, 4) {
-			f.Query = append(f.Query, kv{K: "mode", V: []string{sim.Pick(r, []string{"fast", "slow"})}})
+			// "" = the parameter must be present with an empty value (?mode or ?mode=)
+			f.Query = append(f.Query, kv{K: "mode", V: []string{sim.Pick(r, []string{"fast", "slow", "fast", "slow", ""})}})
 		}
 		if r.Chance(1, 4) {
 			f.Status = [][]int{{200}, {500}, {200, 404}}[r.Intn(3)]
@@ -222,7 +223,7 @@ func writeFilterRest(sb *strings.Builder, f flowSpec, ind string) {
 	if len(f.Query) > 0 {
 		fmt.Fprintf(sb, "%squery_params:\n", ind)
 		for _, q := range f.Query {
-			fmt.Fprintf(sb, "%s  - key: %s\n%s    value: %s\n", ind, q.K, ind, q.V[0])
+			fmt.Fprintf(sb, "%s  - key: %s\n%s    value: %q\n", ind, q.K, ind, q.V[0])
 		}
 	}
 	if len(f.Status) > 0 {
@@ -334,7 +335,15 @@ func genTxns(r *sim.Rand, flows []flowSpec, perURL int, maxURLs int) []txn {
 			if v := sim.Pick(r, []string{"", "", "core", "ops"}); v != "" {
 				t.Headers["x-team"] = v
 			}
-			if v := sim.Pick(r, []string{"", "", "fast", "slow", "other"}); v != "" {
+			switch v := sim.Pick(r, []string{"", "", "fast", "slow", "other", "<bare>", "<empty>", "<empty-then-fast>"}); v {
+			case "":
+			case "<bare>":
+				t.Query = "mode"
+			case "<empty>":
+				t.Query = "mode="
+			case "<empty-then-fast>":
+				t.Query = "mode=&mode=fast"
+			default:
 				t.Query = "mode=" + v
 			}
 			t.Status = sim.Pick(r, []int{200, 200, 404, 500})
@@ -368,7 +377,16 @@ func failedConstraint(f flowSpec, t txn, dir string) string {
 			}
 		}
 		for _, q := range f.Query {
-			if !strings.Contains("&"+t.Query+"&", "&"+q.K+"="+q.V[0]+"&") {
+			// the parameter is present and its first value equals the required one ("k" alone = empty value)
+			found, first := false, ""
+			for _, part := range strings.Split(t.Query, "&") {
+				k, val, _ := strings.Cut(part, "=")
+				if part != "" && k == q.K {
+					found, first = true, val
+					break
+				}
+			}
+			if !found || first != q.V[0] {
 				return "query"
 			}
 		}
